@@ -1265,6 +1265,12 @@ def _perturb(e, rng, eps):
         return ("ap", e[1], args, None if len(e) < 4 or e[3] is None else _perturb(e[3], rng, eps))
     if t == "pw":
         return ("pw", [[_perturb(v, rng, eps), _perturb(c, rng, eps)] for v, c in e[1]], None if e[2] is None else _perturb(e[2], rng, eps))
+    if t == "k" and e[1] in ("pi", "exponentiale"):
+        # the generator prints pi and e with 15 significant digits (convertToString): they are inputs with a relative
+        # error of about 1e-15 too, so an output that is ill-conditioned in them (tan(pi), sin(pi), ln(e)-1, ...) is
+        # not comparable at 1e-9
+        v = math.pi if e[1] == "pi" else math.e
+        return ("cn", repr(v * (1.0 + eps * rng.choice([-1.0, 1.0]))), "dimensionless")
     return e
 
 
